@@ -27,3 +27,13 @@ def status(prog, lemma_id):
             res = "failed"
     _CACHE[key] = res
     return res
+
+
+def load_all():
+    """Import every property module so that its lemmas are registered."""
+    import importlib
+    import os
+    d = os.path.join(os.path.dirname(os.path.abspath(__file__)), "props")
+    for f in sorted(os.listdir(d)):
+        if f.startswith("C") and f.endswith(".py"):
+            importlib.import_module("twlint.props." + f[:-3])
